@@ -6,7 +6,7 @@ import random
 import re
 
 BOUND = {
-    "quick": "all calendar/event fixture files that parse (about 85) plus 5 synthetic texts x 7 rewrites (LF, BOM, str, re-fold with "
+    "quick": "all calendar/event fixture files that parse (about 85) plus 6 synthetic texts x 7 rewrites (LF, BOM, str, re-fold with "
              "space, re-fold with tab, trailing blank lines, name-case variants: lower / upper / swapped) + 3 random compositions each, "
              "both providers; compared: tree, re-serialisation, utcoffset of parsed date-times",
     "thorough": "same with 12 random compositions each and both providers",
@@ -22,6 +22,11 @@ SYNTH = [
     # PARAGRAPH SEPARATOR, NBSP, a non-BMP character
     "BEGIN:VCALENDAR\r\nVERSION:2.0\r\nBEGIN:VEVENT\r\nUID:4\r\nSUMMARY:Team\ufeffSync \u0085 next \u2028 line \u2029 par \u00a0 nbsp \U0001F600 end\r\n"
     "ATTENDEE;CN=\"Ann\ufeffLee \u2028\";X-P=a\u0085b:mailto:a@example.com\r\nDESCRIPTION:\ufeffleading and trailing\ufeff\r\nEND:VEVENT\r\nEND:VCALENDAR\r\n",
+    # enumerated parameters with values that are NOT upper case (a reader that normalises them must do so whatever the case of the NAME)
+    "BEGIN:VCALENDAR\r\nVERSION:2.0\r\nBEGIN:VEVENT\r\nUID:5\r\nDTSTART;VALUE=date:20240101\r\nDTEND;Value=Date:20240102\r\n"
+    "ATTENDEE;RSVP=true;ROLE=req-participant;PARTSTAT=accepted;CUTYPE=individual;X-Custom=MixedCase:mailto:a@example.com\r\n"
+    "ATTACH;ENCODING=base64;VALUE=binary;FMTTYPE=text/plain:dGV4dA==\r\nBEGIN:VALARM\r\nTRIGGER;RELATED=end:-PT15M\r\nACTION:display\r\nEND:VALARM\r\n"
+    "END:VEVENT\r\nBEGIN:VFREEBUSY\r\nUID:6\r\nFREEBUSY;FBTYPE=busy-tentative:20240101T100000Z/PT1H\r\nEND:VFREEBUSY\r\nEND:VCALENDAR\r\n",
     "BEGIN:VCALENDAR\r\nBEGIN:X-BOX\r\nX-PROP;X-PARAM=1:value\r\nBEGIN:VTODO\r\nDUE;TZID=America/New_York:20240301T090000\r\nEXDATE;TZID=America/New_York:20240302T090000\r\nRECURRENCE-ID;TZID=America/New_York:20240302T090000\r\nEND:VTODO\r\nEND:X-BOX\r\nEND:VCALENDAR\r\n",
 ]
 
